@@ -26,6 +26,7 @@ PIPEX = CORE + MODS + [E + "vmock_upump.c", E + "simfd.c"]
 BLK = [R + "umem_alloc.c", R + "ubuf_block_mem.c", R + "ubuf_mem_common.c"]
 VS = [E + "vsched.c"]
 HARNESSES = {
+    "c06_worker": {"src": [H + "c06_worker.c", M + "upipe_transfer.c", M + "upipe_worker.c"] + PIPEX + VS},
     "c06_xfer": {"src": [H + "c06_xfer.c", M + "upipe_transfer.c"] + PIPEX + VS},
     "c06_queue": {"src": [H + "c06_queue.c"] + PIPEX + VS},
     "c12_request": {"src": [H + "c12_request.c"] + PIPEX},
@@ -462,6 +463,12 @@ def _c06_jobs(tier):
         x(script, k)
     x("auourm", k - 1)
     x("auulurm", k - 1)
+    def w(script, bound):
+        jobs.append(("c06_worker", ["--script", script, "--qlen", 2, "--bound", bound, "--deadline", dl]))
+    for script in ("waofiir", "waofiFir"):
+        w(script, 2 if q else 3)
+    for script in ("waofir", "wafoiir", "waoflilr"):
+        w(script, 1 if q else 3)
     if not q:
         j("fiir", 1, 1, 0, 5)
         j("fir", 1, 1, 0, 6)
@@ -471,13 +478,13 @@ def _c06_jobs(tier):
 
 CHECKS["C06"] = {
     "engine": "vsched", "design_ref": "DESIGN.md section 3 C06",
-    "technique": "stateless preemption-bounded exploration of all interleavings of (L1) a producer thread owning the real queue sink and a consumer thread owning the real queue source, (L2) an application thread owning a real upipe_xfer pipe and the remote thread its manager is attached to, each thread with its own mock event loop over simulated descriptors; sequence/ordering, thread-confinement, deadlock and use-after-free (ASan) oracles per execution",
-    "level_text": "Producer scripts over set_flow_def / input / flush / loop step / release on the real upipe_qsink, consumer loop on the real upipe_qsrc with a recording sink; queue lengths 1-3, with and without a producer event loop, with max_length 0/1. Every interleaving with at most k preemptions at each atomic operation and each descriptor read/write of the shared queue and refcounts, every dispatch order of ready pumps. Per execution: the consumer receives the flow definition before data and each buffer exactly once in order (nothing lost when the producer has a loop; after a definition change the new definition precedes the next buffer), source_end comes after the last buffer, no deadlock / livelock, every event of the queue sink is thrown in the producer thread and every event of the queue source and every entry into the consumer's sink happens in the consumer thread, nothing is used after free (ASan) and everything is released at the end. L2: application scripts over attach_upump_mgr / set_uri / set_output / loop step / release(xfer pipe) / release(xfer manager) on a real upipe_xfer pipe whose remote pipe is a harness pipe recording the thread of every entry and throwing an event (forwarded by the real uprobe_xfer) on every set_uri: the remote pipe sees exactly the scripted commands, once, in order, only from the remote thread, is released there; forwarded events are thrown by the xfer pipe in the application thread, at most once each; the xfer pipe and its manager die, nothing is used after free, no deadlock. Bounded, not a proof.",
-    "level_note": "Levels L1 (queue pair) and L2 (transfer) of DESIGN section 3/C06. The worker pipes (L3, upipe_worker over upipe_pthread_transfer) are not explored; ThreadSanitizer is not run under the scheduler (coroutines). Managers' internal atomics are not scheduling points (thread-safe services decided by C07/C09). Sequentially consistent interleavings.",
+    "technique": "stateless preemption-bounded exploration of all interleavings of (L1) a producer thread owning the real queue sink and a consumer thread owning the real queue source, (L2) an application thread owning a real upipe_xfer pipe and the remote thread its manager is attached to, (L3) an application thread owning a real linear worker pipe (upipe_worker.c) built inside the script around a recording remote pipe and the remote thread, each thread with its own mock event loop over simulated descriptors; sequence/ordering, thread-confinement, deadlock and use-after-free (ASan) oracles per execution",
+    "level_text": "Producer scripts over set_flow_def / input / flush / loop step / release on the real upipe_qsink, consumer loop on the real upipe_qsrc with a recording sink; queue lengths 1-3, with and without a producer event loop, with max_length 0/1. Every interleaving with at most k preemptions at each atomic operation and each descriptor read/write of the shared queue and refcounts, every dispatch order of ready pumps. Per execution: the consumer receives the flow definition before data and each buffer exactly once in order (nothing lost when the producer has a loop; after a definition change the new definition precedes the next buffer), source_end comes after the last buffer, no deadlock / livelock, every event of the queue sink is thrown in the producer thread and every event of the queue source and every entry into the consumer's sink happens in the consumer thread, nothing is used after free (ASan) and everything is released at the end. L2: application scripts over attach_upump_mgr / set_uri / set_output / loop step / release(xfer pipe) / release(xfer manager) on a real upipe_xfer pipe whose remote pipe is a harness pipe recording the thread of every entry and throwing an event (forwarded by the real uprobe_xfer) on every set_uri: the remote pipe sees exactly the scripted commands, once, in order, only from the remote thread, is released there; forwarded events are thrown by the xfer pipe in the application thread, at most once each; the xfer pipe and its manager die, nothing is used after free, no deadlock. L3: scripts over upipe_wlin_alloc / attach_upump_mgr / set_output / set_flow_def / input / loop step / release: buffers travel application -> in_qsink | in_qsrc -> remote pipe -> out_qsink | out_qsrc -> application sink and must arrive exactly once, in order, after the right definition, with nothing lost once both loops are idle; the remote pipe (and the transferred queue source) is only entered from the remote thread, the application's sink only from the application thread. Bounded, not a proof.",
+    "level_note": "Levels L1 (queue pair), L2 (transfer) and L3 (linear worker over a harness-attached xfer manager) of DESIGN section 3/C06. upipe_pthread_transfer (real thread creation), source/sink workers and freeze/thaw are not explored; ThreadSanitizer is not run under the scheduler (coroutines). Managers' internal atomics are not scheduling points (thread-safe services decided by C07/C09). Sequentially consistent interleavings.",
     "jobs": {"quick": _c06_jobs("quick"), "thorough": _c06_jobs("thorough")},
     "rule": "one execution = one complete schedule; states = scheduling points visited; non-trivial = executions in which the consumer's loop ran while the producer was still in its script",
-    "bounds": {"quick": "scripts fiir fiiir fiFir fiixir fillir x queue length 1-2, preemption bound 3; no-loop producer scripts bound 4; max_length 1; length 3 and fiFiir at bound 2; xfer scripts aurm aumr aulrm aoulrm amur at bound 3, auourm auulurm at bound 2 (command queue length 8)",
-               "thorough": "bound 4 (5 for no-loop), plus fiir at bound 5 and fir at bound 6; xfer scripts one preemption deeper"},
+    "bounds": {"quick": "scripts fiir fiiir fiFir fiixir fillir x queue length 1-2, preemption bound 3; no-loop producer scripts bound 4; max_length 1; length 3 and fiFiir at bound 2; xfer scripts aurm aumr aulrm aoulrm amur at bound 3, auourm auulurm at bound 2 (command queue length 8); worker scripts waofiir waofiFir at bound 2, waofir wafoiir waoflilr at bound 1 (queue length 2)",
+               "thorough": "bound 4 (5 for no-loop), plus fiir at bound 5 and fir at bound 6; xfer and worker scripts one preemption deeper"},
     "assumptions": DEFAULT_ASSUME + ["scheduling points: every uatomic_* on the queue / pipe refcounts, every simulated eventfd read/write, every loop iteration; sequentially consistent memory",
                                      "a loop callback that changes nothing visible is treated as a retry and yields to the other thread (fair scheduling)"],
     "job_timeout": {"quick": 300, "thorough": 1500},
